@@ -62,6 +62,7 @@ type SvcSpec struct {
 	Key      string `json:"key"`
 	External bool   `json:"external"`
 	Slice    bool   `json:"slice"`
+	Named    bool   `json:"named,omitempty"` // port 80 has the NAMED targetPort "web", resolved through the pods
 }
 
 type SecretSpec struct {
@@ -226,16 +227,18 @@ type PolObs struct {
 
 // EvObs: one notification delivered through the real informer handler and the real lbc.sync
 type EvObs struct {
-	Kind     string `json:"kind"`
-	Key      string `json:"key"`
-	Op       string `json:"op"`                 // add | update | update-irrelevant | delete
-	Relevant bool   `json:"relevant"`           // Service update: verdict of hasServiceChanges; true otherwise
-	Queued   int    `json:"queued"`             // tasks the handler put on the work queue
-	Regen    bool   `json:"regen"`              // the configuration file of the resource was written again
-	Stale    bool   `json:"stale"`              // after the event, regenerating the resource would still change its file
-	Dep      bool   `json:"dep"`                // the extended resource was observed to depend on the object (create*Ex level)
-	Recreate string `json:"recreate,omitempty"` // history: this Policy was stored unusable, seen by a Secret sync, deleted and created again usable before the event
-	Err      string `json:"err,omitempty"`
+	Kind      string `json:"kind"`
+	Key       string `json:"key"`
+	Op        string `json:"op"`                   // add | update | update-irrelevant | delete
+	Relevant  bool   `json:"relevant"`             // Service update: verdict of hasServiceChanges; true otherwise
+	Queued    int    `json:"queued"`               // tasks the handler put on the work queue
+	Regen     bool   `json:"regen"`                // the configuration file of the resource was written again
+	Stale     bool   `json:"stale"`                // after the event, regenerating the resource would still change its file
+	Dep       bool   `json:"dep"`                  // the extended resource was observed to depend on the object (create*Ex level)
+	Material  bool   `json:"material"`             // the new version differs in what generation reads (false: metadata-only changes)
+	FreshDiff bool   `json:"fresh_diff,omitempty"` // a controller started afresh on the same cluster writes a different file
+	Recreate  string `json:"recreate,omitempty"`   // history: this Policy was stored unusable, seen by a Secret sync, deleted and created again usable before the event
+	Err       string `json:"err,omitempty"`
 }
 
 type Obs struct {
@@ -425,6 +428,10 @@ func mkService(s SvcSpec, gen int) *api_v1.Service {
 		{Name: "http", Port: 80, TargetPort: intstr.FromInt(8080)},
 		{Name: "alt", Port: 8080, TargetPort: intstr.FromInt(9090)},
 	}
+	if s.Named {
+		svc.Spec.Ports[0].TargetPort = intstr.FromString("web")
+		svc.Spec.Ports[0].Protocol, svc.Spec.Ports[1].Protocol = api_v1.ProtocolTCP, api_v1.ProtocolTCP
+	}
 	if s.External {
 		svc.Spec.Type = api_v1.ServiceTypeExternalName
 		svc.Spec.ExternalName = fmt.Sprintf("ext%d.%s.example.com", gen, name)
@@ -450,6 +457,7 @@ func mkSlice(key string, gen int) (*discovery_v1.EndpointSlice, *api_v1.Pod) {
 	}
 	pod := &api_v1.Pod{ObjectMeta: meta_v1.ObjectMeta{Namespace: ns, Name: podName, Labels: map[string]string{"app": name, "v": "1"}}}
 	pod.Status.PodIP = ip
+	pod.Spec.Containers = []api_v1.Container{{Name: "app", Ports: []api_v1.ContainerPort{{Name: "web", ContainerPort: 8080, Protocol: api_v1.ProtocolTCP}}}}
 	return sl, pod
 }
 
@@ -531,6 +539,8 @@ func mkDosHop(kind, key string, ok bool, gen int) *unstructured.Unstructured {
 	u.SetNamespace(ns)
 	u.SetName(name)
 	u.SetResourceVersion(fmt.Sprint(gen))
+	u.SetGeneration(1)
+	u.SetUID("uid-original")
 	return u
 }
 
@@ -676,7 +686,7 @@ func genCluster(r *vh.Rng, e Env) Cluster {
 		for _, n := range svcNames {
 			if r.Chance(4, 5) {
 				ext := e.Plus && r.Chance(1, 4)
-				c.Services = append(c.Services, SvcSpec{Key: ns + "/" + n, External: ext, Slice: !ext && r.Chance(9, 10)})
+				c.Services = append(c.Services, SvcSpec{Key: ns + "/" + n, External: ext, Slice: !ext && r.Chance(9, 10), Named: !ext && r.Chance(1, 3)})
 			}
 		}
 		for _, n := range secNames {
@@ -1805,6 +1815,19 @@ func mkApObj(kind, key string, ok bool, gen int, tag string) *unstructured.Unstr
 	u.SetNamespace(ns)
 	u.SetName(name)
 	u.SetResourceVersion(fmt.Sprint(gen))
+	u.SetGeneration(1)
+	u.SetUID("uid-original")
+	return u
+}
+
+// edited marks the new version of a custom resource: an edit in place moves metadata.generation; an object that was
+// deleted and created again while the watch was down arrives as an update with a new UID and generation 1 again.
+func edited(u *unstructured.Unstructured, recreated bool) *unstructured.Unstructured {
+	if recreated {
+		u.SetUID("uid-recreated")
+	} else {
+		u.SetGeneration(2)
+	}
 	return u
 }
 
@@ -1945,6 +1968,67 @@ func buildFull(c *Case) (*world, error) {
 	return w, nil
 }
 
+// freshFiles starts a second controller (own Configuration, Configurator, App Protect / DoS stores) over the SAME
+// informer stores and secret store, lets it sync everything the way a starting controller does, and returns its files.
+func freshFiles(w *world, c *Case) (map[string]string, error) {
+	t1, t2, err := templates(c.Env.Plus)
+	if err != nil {
+		return nil, err
+	}
+	mgr := &recMgr{FakeManager: nginx.NewFakeManager("/etc/nginx"), files: map[string]string{}}
+	ver := "nginx version: nginx/1.25.3"
+	if c.Env.Plus {
+		ver = "nginx version: nginx/1.25.3 (nginx-plus-r31)"
+	}
+	ctx := context.Background()
+	static := &configs.StaticConfigParams{NginxStatus: true, NginxStatusAllowCIDRs: []string{"127.0.0.1"}, NginxStatusPort: 8080,
+		NginxVersion: nginx.NewVersion(ver), MainAppProtectLoadModule: c.Env.AP, MainAppProtectDosLoadModule: c.Env.Dos, EnableOIDC: true,
+		EnableSnippets: true, EnableCertManager: true}
+	cnf := configs.NewConfigurator(configs.ConfiguratorParams{NginxManager: mgr, StaticCfgParams: static,
+		Config: configs.NewDefaultConfigParams(ctx, c.Env.Plus), MGMTCfgParams: configs.NewDefaultMGMTConfigParams(ctx),
+		TemplateExecutor: t1, TemplateExecutorV2: t2, IsPlus: c.Env.Plus, NginxVersion: nginx.NewVersion(ver)})
+	cnf.EnableReloads()
+	v := k8s.NewVerifC15(k8s.VerifC15Opts{Plus: c.Env.Plus, AppProtect: c.Env.AP, Dos: c.Env.Dos, SecretStore: w.sec, Configurator: cnf,
+		DefaultServerSecret: c.Env.DefaultSecret, WildcardTLSSecret: c.Env.WildcardSecret, Share: w.v})
+	all := func(kind string, st cache.Store, on bool) error {
+		if !on {
+			return nil
+		}
+		keys := st.ListKeys()
+		sort.Strings(keys)
+		for _, k := range keys {
+			o, _, _ := st.GetByKey(k)
+			if _, err := v.Deliver(kind, "add", nil, o); err != nil {
+				return err
+			}
+		}
+		v.Drain()
+		return nil
+	}
+	type step struct {
+		kind string
+		st   cache.Store
+		on   bool
+	}
+	for _, s := range []step{{"usersig", w.v.ApSig, c.Env.AP}, {"appolicy", w.v.ApPol, c.Env.AP}, {"aplogconf", w.v.ApLog, c.Env.AP},
+		{"dospolicy", w.v.DosPol, c.Env.Dos}, {"doslogconf", w.v.DosLog, c.Env.Dos}, {"dos", w.v.DosProt, c.Env.Dos}} {
+		if err := all(s.kind, s.st, s.on); err != nil {
+			return nil, err
+		}
+	}
+	if c.TS != nil {
+		gc := &conf_v1.GlobalConfiguration{ObjectMeta: meta_v1.ObjectMeta{Namespace: "nginx-ingress", Name: "gc"}}
+		gc.Spec.Listeners = []conf_v1.Listener{{Name: "tcp-1", Port: 5353, Protocol: "TCP"}}
+		v.AddGlobalConfiguration(gc)
+	}
+	for _, s := range []step{{"vs", w.v.VS, true}, {"vsr", w.v.VSR, true}, {"ts", w.v.TS, true}, {"ingress", w.v.Ingress, true}} {
+		if err := all(s.kind, s.st, s.on); err != nil {
+			return nil, err
+		}
+	}
+	return snapshot(mgr.files), nil
+}
+
 // storeEvent changes the store the way the informer does before it calls the handler; it returns the
 // handler arguments.
 func (w *world) storeEvent(kind, key, op string) (string, interface{}, interface{}, bool) {
@@ -1957,6 +2041,10 @@ func (w *world) storeEvent(kind, key, op string) (string, interface{}, interface
 		op, after = "update", func(bool) bool { return false }
 	} else if op == "update-valid" {
 		op, after = "update", func(bool) bool { return true }
+	}
+	recreated := op == "update-recreated" // same name, same generation, new UID, different content
+	if recreated {
+		op = "update"
 	}
 	switch kind {
 	case "secret":
@@ -1992,7 +2080,7 @@ func (w *world) storeEvent(kind, key, op string) (string, interface{}, interface
 			_ = st.Add(cur)
 			return "add", nil, cur, true
 		case "update":
-			old, cur := mkApObj(kind, key, ok, 0, tag), mkApObj(kind, key, after(ok), g, tag)
+			old, cur := mkApObj(kind, key, ok, 0, tag), edited(mkApObj(kind, key, after(ok), g, tag), recreated)
 			_ = st.Update(cur)
 			return "update", old, cur, true
 		case "delete":
@@ -2043,6 +2131,15 @@ func (w *world) storeEvent(kind, key, op string) (string, interface{}, interface
 		case "delete":
 			w.delSlice(key)
 			return "delete", old, nil, true
+		case "rollout": // new pods: the container port behind the name "web" moves 8080 -> 9090, the slice follows
+			cur, pod := mkSlice(key, 1+g%40)
+			p := int32(9090)
+			cur.Ports = []discovery_v1.EndpointPort{{Port: &p}}
+			pod.Spec.Containers[0].Ports[0].ContainerPort = 9090
+			_ = w.v.Pods.Delete(oldPod)
+			_ = w.v.Pods.Add(pod)
+			_ = w.v.Slices.Update(cur)
+			return "update", old, cur, true
 		case "update-metadata": // what the EndpointSlice controller does all the time; must stay harmless
 			cur, _ := mkSlice(key, 0)
 			cur.Annotations = map[string]string{"endpoints.kubernetes.io/last-change-trigger-time": fmt.Sprint(g)}
@@ -2127,7 +2224,7 @@ func (w *world) storeEvent(kind, key, op string) (string, interface{}, interface
 			_ = w.v.ApSig.Add(cur)
 			return "add", nil, cur, true
 		case "update":
-			old, cur := mkApObj(kind, key, ok, 0, tag), mkApObj(kind, key, after(ok), g, tag)
+			old, cur := mkApObj(kind, key, ok, 0, tag), edited(mkApObj(kind, key, after(ok), g, tag), recreated)
 			_ = w.v.ApSig.Update(cur)
 			return "update", old, cur, true
 		case "delete":
@@ -2147,7 +2244,7 @@ func (w *world) storeEvent(kind, key, op string) (string, interface{}, interface
 			_ = st.Add(cur)
 			return "add", nil, cur, true
 		case "update":
-			old, cur := mkDosHop(kind, key, spec.OK, 0), mkDosHop(kind, key, after(spec.OK), g)
+			old, cur := mkDosHop(kind, key, spec.OK, 0), edited(mkDosHop(kind, key, after(spec.OK), g), recreated)
 			_ = st.Update(cur)
 			return "update", old, cur, true
 		case "delete":
@@ -2310,6 +2407,13 @@ func historyEvent(c *Case, resKey, kind, key, op, recreate string) (ev EvObs) {
 		return ev
 	}
 	ev.Relevant = relevant
+	ev.Material = relevant
+	if kind == "service" {
+		ev.Material = op != "update-irrelevant"
+	}
+	if op == "update-metadata" {
+		ev.Material = false
+	}
 	n, err := w.v.Deliver(kind, hop, old, cur)
 	if err != nil {
 		ev.Err = err.Error()
@@ -2335,6 +2439,21 @@ func historyEvent(c *Case, resKey, kind, key, op, recreate string) (ev EvObs) {
 	}
 	regen := snapshot(w.mgr.files)
 	ev.Stale = !reflect.DeepEqual(after, regen)
+	if op == "rollout" || (kind == "endpoints" && op == "update") {
+		// state that survives between events (caches) is invisible to a regeneration on the same controller:
+		// compare with a controller started afresh on the cluster as it is now
+		fresh, err := freshFiles(w, c)
+		if err != nil {
+			ev.Err = "fresh controller: " + err.Error()
+			return ev
+		}
+		if fresh[file] != after[file] {
+			ev.FreshDiff, ev.Stale = true, true
+			if os.Getenv("VERIF_C15_DEBUG") != "" {
+				fmt.Fprintf(os.Stderr, "DEBUG fresh %s %s %s\n--- after event\n%s\n--- fresh controller\n%s\n", kind, key, op, after[file], fresh[file])
+			}
+		}
+	}
 	if ev.Stale && os.Getenv("VERIF_C15_DEBUG") != "" {
 		for k, v := range regen {
 			if after[k] != v {
@@ -2415,6 +2534,13 @@ func runEvents(c *Case, resKey string, revs []Rev, pols []PolObs) []EvObs {
 			}
 			if r.Kind == "endpoints" {
 				ops = append(ops, "update-metadata", "relabel-away", "relabel-to")
+				if sp, ok := findSvc(c, key); ok && sp.Named {
+					ops = append(ops, "rollout")
+				}
+			}
+			switch r.Kind {
+			case "appolicy", "aplogconf", "dospolicy", "doslogconf":
+				ops = append(ops, "update-recreated")
 			}
 			if ok, has := usable(c, r.Kind, key); has {
 				if ok {
@@ -2469,9 +2595,9 @@ func runEvents(c *Case, resKey string, revs []Rev, pols []PolObs) []EvObs {
 		have := map[string]bool{}
 		for _, u := range c.Cluster.UserSigs {
 			have[u.Key] = true
-			ops := []string{"update", "delete", "update-invalid"}
+			ops := []string{"update", "delete", "update-invalid", "update-recreated"}
 			if !u.OK {
-				ops = []string{"update", "delete", "update-valid"}
+				ops = []string{"update", "delete", "update-valid", "update-recreated"}
 			}
 			for _, op := range ops {
 				out = append(out, oneEvent(c, resKey, "usersig", u.Key, op))
